@@ -1089,13 +1089,29 @@ func (in *Interp) binop(op token.Token, a, b Value) Value {
 }
 
 func condDesc(op token.Token, x, y IntV) *CondDesc {
+	oneBit := func(d *CondDesc, v IntV) *CondDesc {
+		if v.V == 0 && v.Unk != 0 && v.Unk&(v.Unk-1) == 0 && v.Ex == v.Unk && v.Dep != nil {
+			p := 0
+			for v.Unk>>uint(p)&1 == 0 {
+				p++
+			}
+			if dd := v.Dep[p]; dd != 0 && dd&(dd-1) == 0 && dd&AddrBit == 0 {
+				b := 0
+				for dd>>uint(b)&1 == 0 {
+					b++
+				}
+				d.OneBit, d.Bit = true, b
+			}
+		}
+		return d
+	}
 	switch {
 	case y.Unk == 0 && x.Unk != 0:
-		return &CondDesc{Op: op, XDep: x.AllDeps(), Const: y.V}
+		return oneBit(&CondDesc{Op: op, XDep: x.AllDeps(), Const: y.V}, x)
 	case x.Unk == 0 && y.Unk != 0:
 		// mirror
 		m := map[token.Token]token.Token{token.EQL: token.EQL, token.NEQ: token.NEQ, token.LSS: token.GTR, token.GTR: token.LSS, token.LEQ: token.GEQ, token.GEQ: token.LEQ}
-		return &CondDesc{Op: m[op], XDep: y.AllDeps(), Const: x.V}
+		return oneBit(&CondDesc{Op: m[op], XDep: y.AllDeps(), Const: x.V}, y)
 	}
 	return nil
 }
